@@ -25,7 +25,7 @@ BIGOM2 = 25.0      # lowering every omega2 transition state by 25 (rate x 7e10) 
 
 def BOUNDS(tier):
     return {'vacancy-mediated': VM_QUICK if tier == 'quick' else VM_THOROUGH, 'interstitial': inter.INTER_CRYSTALS, 'deltas': DELTAS,
-            'bases': ['T', 'G1', 'G2', 'G1+all omega2 lowered by 25 (large-omega2 algorithm)', 'G1+one omega2 class lowered by 25 (each class in turn)'], 'k': 1 if tier == 'thorough' else 0, 'tol': TOL}
+            'bases': ['T', 'G1', 'G2', 'G1+all omega2 lowered by 25 (large-omega2 algorithm)', 'G1+one omega2 class lowered by 25 (each class in turn)'], 'k': '1 (letter E+5 on every coordinate)' if tier == 'thorough' else 0, 'tol': TOL}
 
 
 def cases(tier):
@@ -34,7 +34,7 @@ def cases(tier):
         ent = vm.calculator(name, icut, N)
         nco = len(vm.coordinates(ent))
         devs = [()]
-        if tier == 'thorough': devs += [((c, l),) for c in range(nco) for l in (0, 2)]
+        if tier == 'thorough': devs += [((c, 2),) for c in range(nco)]      # letter E+5 on every coordinate
         nodes = [(b, d) for b in ('T', 'G1', 'G2', 'G1L') for d in devs]
         # one exchange class alone in the large-omega2 regime (crystals with several exchange classes)
         nT2 = len(vm.class_keys(ent)['T2'])
